@@ -192,6 +192,10 @@ def install(world):
                 if isinstance(subj, V) and isinstance(subj.t, TOpt):
                     eng.may_raise(st, 'TypeError', subj.t.is_none(subj.term), f'{attr}() on None')
                     subj = V(subj.t.inner, subj.t.val(subj.term))
+                if isinstance(subj, V) and subj.t.name == 'Node':
+                    # a NavigableString is a str: the pattern is applied to its text
+                    eng.may_raise(st, 'TypeError', z3.Not(eng.world.tree.is_navstr(subj.term)), f'{attr}() on something that is not a string')
+                    subj = V(STR, eng.world.tree.text(subj.term))
                 subj = eng.coerce(subj, STR, node)
                 pos = eng.coerce(args[1], INT, node).term if len(args) > 1 else None
                 return rx.do_match(eng, pat, subj, pos, st, node, search=(attr == 'search'))
